@@ -284,6 +284,15 @@ class AnchorError(Exception):
     pass
 
 
+def adt_shape(a):
+    """kind, variant names and field (name, type) lists with the type's own name and path abstracted: what a rename leaves unchanged"""
+    own = a["def"]
+    last = own.split("::")[-1]
+    def ty(t):
+        return re.sub(r"(?<![A-Za-z0-9_])%s(?![A-Za-z0-9_])" % re.escape(own), "<Self>", t or "")
+    return [a.get("kind"), [[("<Self>" if v["name"] == last else v["name"]), [[f["name"], ty(f["ty"])] for f in v.get("fields", [])]] for v in a.get("variants", [])]]
+
+
 def _moved_types(config, parsed):
     """Types keep the name the specifications know them by.  A struct/enum whose definition path is new (not among the paths recorded
     with the specifications, rules/expect2/adts_<config>.json) but which is re-exported (`use`) under a recorded path has only been
@@ -305,6 +314,22 @@ def _moved_types(config, parsed):
             al = sorted(set(x["alias"] for x in rx if x["real"] == r and x["alias"] in kn and x["alias"] not in real_paths))
             if len(al) == 1:
                 out.append((r, al[0]))
+        # a type renamed in place (and possibly moved as well): a recorded name that no longer exists anywhere and an unrecorded type of
+        # exactly the same shape (kind, variants, field names and types), when that pairing is unique in both directions
+        shapes = known.get(cname + "#shapes", {})
+        aliases = set(x["alias"] for x in rx)
+        mapped = set(r for r, _ in out)
+        gone = [k for k in sorted(kn) if k not in real_paths and k not in aliases and k in shapes]
+        fresh = [a for a in j.get("adts", []) if a["def"] not in kn and a["def"] not in mapped]
+        for a in fresh:
+            sh = json.loads(json.dumps(adt_shape(a)))
+            cands = [g for g in gone if shapes[g] == sh]
+            others = [b for b in fresh if b is not a and json.loads(json.dumps(adt_shape(b))) == sh]
+            if len(cands) == 1 and not others:
+                out.append((a["def"], cands[0]))
+                # the struct's single variant carries the type's name
+                if a["def"].split("::")[-1] != cands[0].split("::")[-1]:
+                    out.append(("\"%s\"" % a["def"].split("::")[-1], "\"%s\"" % cands[0].split("::")[-1]))
         # free functions likewise
         knf = set(known.get(cname + "#fns", []))
         real_fns = set(f["def"] for f in j.get("fns", []) if f.get("dk") == "Fn")
